@@ -37,6 +37,12 @@ claim("C17",
       GEN, "DESIGN.md 5/C17")
 
 
+claim("C05",
+      "ZervModel.tla is `zerv version` as a state machine (validation, VCS overrides, clean, tag version, context control, schema choice, one step per precedence level with override / bump / reset-lower, one step per index-addressed operation, timestamp, normalise). TLC checks the action property 'no step changes a level above its own', the closed-form law of the property against the stepwise machine, 'errors give no result' and schema validity in three bounded argument spaces, and prints every behaviour; the harness replays each through clap and run_version_pipeline under two flag permutations and compares all variables and schema components; random runs recorded from the code are re-executed action by action by Trace_Zerv.",
+      "Exhaustive in: all 3^7 (quick) / 4^7 (thorough) override-bump subsets x 3 label choices x 3 starts; 29k index-operation cases; 18k VCS/preset cases. Random amounts up to 2^29 beyond. Default precedence order only.",
+      GEN, "DESIGN.md 5/C05")
+
+
 def main():
     m = {
         "version": 1,
